@@ -28,6 +28,7 @@ const (
 	kIf
 	kForeach
 	kSub
+	kSwitch
 )
 
 type leaf struct {
@@ -57,7 +58,7 @@ var leaves = []leaf{
 var containers = []struct {
 	kind int
 	tok  string
-}{{kCall, "call"}, {kIf, "if"}, {kForeach, "foreach"}, {kSub, "sub"}}
+}{{kCall, "call"}, {kIf, "if"}, {kForeach, "foreach"}, {kSub, "sub"}, {kSwitch, "switch"}}
 
 type node struct {
 	leaf
@@ -208,6 +209,10 @@ func (r *render) block(f []*node, b *strings.Builder, indent string) {
 			b.WriteString("%[1] -> foreach vscope_i {\n")
 			r.block(n.kids, b, indent+"    ")
 			b.WriteString(indent + "}\n")
+		case kSwitch:
+			b.WriteString("switch {\n" + indent + "  case { true } then {\n")
+			r.block(n.kids, b, indent+"    ")
+			b.WriteString(indent + "  }\n" + indent + "}\n")
 		case kSub:
 			b.WriteString("out ${\n")
 			r.block(n.kids, b, indent+"    ")
@@ -300,7 +305,7 @@ func (m *model) run(f []*node, inContainer bool) string {
 			m.frames = append(m.frames, map[string]int{})
 			out.WriteString(m.run(n.kids, true))
 			m.frames = m.frames[:len(m.frames)-1]
-		case kIf, kForeach:
+		case kIf, kForeach, kSwitch:
 			out.WriteString(m.run(n.kids, true))
 		case kSub:
 			// `out ${ ... }`: the sub-shell's output with the trailing newline trimmed, plus out's own
@@ -440,7 +445,7 @@ func replay(c *vlib.Ctx, w string) {
 func init() {
 	vlib.Register(&vlib.Check{
 		ID: "C11", Engine: "E3",
-		Rule:   "every op tree (program) with at most N nodes and nesting depth <= 2 over leaves {x=1, x=2, y=1 (local assignment), !set x|y, read $x|$y, $GLOBAL.x=3|4, $GLOBAL.y=3, read $GLOBAL.x, !global x} and containers {call of a function defined for that site, if{true}then{..}, %[1]->foreach{..}, out ${..}} (quick N<=4; thorough N<=4, plus N=5 over the eight x-only leaves and N=6 over the four simplest leaves rx, x=1, gx=3, ux) is rendered as a murex program with strict-vars on, run in a fresh function scope with the global table reset, followed by top-level reads of x, y, GLOBAL.x, GLOBAL.y; every tagged read line on stdout (absent = undefined-variable failure) is compared with a scope-stack model: a call pushes an empty frame, blocks and sub-shells share the frame, one global table, lookup local then global, unset removes only the current frame's binding; non-trivial = the program has a container with a write (set/unset/global set/global unset) inside it",
+		Rule:   "every op tree (program) with at most N nodes and nesting depth <= 2 over leaves {x=1, x=2, y=1 (local assignment), !set x|y, read $x|$y, $GLOBAL.x=3|4, $GLOBAL.y=3, read $GLOBAL.x, !global x} and containers {call of a function defined for that site, if{true}then{..}, %[1]->foreach{..}, out ${..}, switch{case{true}then{..}}} (quick N<=4; thorough N<=4, plus N=5 over the eight x-only leaves and N=6 over the four simplest leaves rx, x=1, gx=3, ux) is rendered as a murex program with strict-vars on, run in a fresh function scope with the global table reset, followed by top-level reads of x, y, GLOBAL.x, GLOBAL.y; every tagged read line on stdout (absent = undefined-variable failure) is compared with a scope-stack model: a call pushes an empty frame, blocks and sub-shells share the frame, one global table, lookup local then global, unset removes only the current frame's binding; non-trivial = the program has a container with a write (set/unset/global set/global unset) inside it",
 		Run:    run,
 		Replay: replay,
 		Assumptions: []string{
